@@ -1,8 +1,10 @@
-(* C06  Include merging (logic part; completeness / precedence over whole graphs is established per run by the
-   check against an independent closure fold, see DESIGN.md). *)
+(* C06  Include merging: small facts about the guard and path resolution first, then termination, precedence,
+   completeness and include order over whole include graphs (proofs in Proofs/IncludeProofs.v; top level keys;
+   the merge algebra on nested ordinary data is C07). *)
 From Coq Require Import String.   (* string literals of the examples; imported first so the list names win *)
 From Coq Require Import NArith ZArith List Bool.
-From DictIO Require Import Chars Str Value Scalar SDict Lexer TokParser Reader TreeSpec LayoutSpec SemProofs.
+From DictIO Require Import Chars Str Value Scalar SDict Lexer TokParser Reader TreeSpec LayoutSpec SemProofs
+     IncludeProofs.
 Import ListNotations.
 
 (* with include processing switched off no include entry is returned *)
@@ -70,3 +72,411 @@ Qed.
 Theorem C06_norm_idem : forall p, norm_path (norm_path p) = norm_path p.
 Proof. exact norm_path_idem. Qed.
 Print Assumptions C06_norm_idem.
+
+(* ================================================================================================== *)
+(* Include merging over whole include graphs (proofs: Proofs/IncludeProofs.v)                          *)
+(* ================================================================================================== *)
+
+(* ---- the example file system of the non-vacuity checks ---------------------------------------------
+     /a.json      includes b.json and c.json                                   (root)
+     /b.json      includes d.json
+     /c.json      includes d.json (shared include), missing.json (dangling), sub/b.json
+     /d.json      includes a.json                                              (cycle a -> b -> d -> a)
+     /sub/b.json  includes b.json, which resolves to /sub/b.json itself        (equally named file in
+                                                                                another directory, self cycle) *)
+Definition C06_s (s : string) : str := of_string s.
+Definition C06_inc (k f : string) : key * tree := (KS (C06_s k), Leaf (SStr (C06_s f))).
+Definition C06_kv (k : string) (n : Z) : key * tree := (KS (C06_s k), Leaf (SInt n)).
+Definition C06_fs : fsys :=
+  [ (C06_s "/a.json", FJson [C06_inc "#include" "b.json"; C06_kv "k" 1; C06_inc "#include 2" "c.json"; C06_kv "a" 10;
+                             (KS (C06_s "n"), Dict [C06_kv "x" 1])]);
+    (C06_s "/b.json", FJson [C06_kv "k" 2; C06_kv "b" 20; C06_inc "#include" "d.json";
+                             (KS (C06_s "n"), Dict [C06_kv "x" 2; C06_kv "y" 2])]);
+    (C06_s "/c.json", FJson [C06_kv "k" 3; C06_kv "b" 30; C06_kv "c" 30; C06_inc "#include" "d.json";
+                             C06_inc "#include 2" "missing.json"; C06_inc "#include 3" "sub/b.json"]);
+    (C06_s "/d.json", FJson [C06_kv "d" 40; C06_kv "k" 4; C06_inc "#include" "a.json"]);
+    (C06_s "/sub/b.json", FJson [C06_kv "e" 50; C06_kv "b" 60; C06_inc "#include" "b.json"]) ].
+Definition C06_root : str := C06_s "/a.json".
+Definition C06_dummy : parsed := mkParsed sd_empty 0%Z.
+(* the unit at [path] parsed with the counter at [c] *)
+Definition C06_parse_in (fs : fsys) (path : str) (c : Z) : parsed :=
+  match fs_lookup (norm_path path) fs with
+  | Some u => match parse_unit true path c u with Ok pr => pr | Raise _ => C06_dummy end
+  | None => C06_dummy
+  end.
+Definition C06_parse : str -> Z -> parsed := C06_parse_in C06_fs.
+Definition C06_pr0 : parsed := C06_parse C06_root (-1)%Z.
+Definition C06_value (k : string) : option tree :=
+  match read_plain C06_fs C06_root true true (-1)%Z with
+  | Ok (s, _) => alookup (KS (C06_s k)) (sd_data s)
+  | Raise _ => None
+  end.
+(* what the model returns on it: the root wins for k, b.json (earlier) beats c.json and sub/b.json for b,
+   n is merged key by key, every file contributes its own keys *)
+Example C06_example_result :
+  (exists s c', read_plain C06_fs C06_root true true (-1)%Z = Ok (s, c')) /\
+  C06_value "k" = Some (Leaf (SInt 1)) /\ C06_value "a" = Some (Leaf (SInt 10)) /\
+  C06_value "b" = Some (Leaf (SInt 20)) /\ C06_value "c" = Some (Leaf (SInt 30)) /\
+  C06_value "d" = Some (Leaf (SInt 40)) /\ C06_value "e" = Some (Leaf (SInt 50)) /\
+  C06_value "n" = Some (Dict [C06_kv "x" 1; C06_kv "y" 2]).
+Proof. split; [do 2 eexists; vm_compute; reflexivity | vm_compute; repeat split; reflexivity]. Qed.
+
+(* conjuncts are checked from left to right, so that an existential witness is fixed by the first equation
+   that mentions it before vm_compute sees the later ones *)
+Ltac C06_check :=
+  cbv zeta;
+  repeat match goal with
+         | |- _ /\ _ => split; [solve [vm_compute; first [reflexivity | discriminate]] | ]
+         end;
+  vm_compute; repeat match goal with |- _ /\ _ => split end; first [reflexivity | discriminate].
+(* a witness of IncludeProofs.direct_include: the entry after the first [k] entries of the parent's table *)
+Ltac C06_direct k :=
+  match goal with
+  | |- direct_include _ _ _ _ ?parent _ _ _ =>
+      let pre := eval vm_compute in (firstn k (sd_inc parent)) in
+      exists pre; do 7 eexists; C06_check
+  end.
+
+(* ---- 1. TERMINATION -------------------------------------------------------------------------------- *)
+(* The recursion guard keeps pairwise distinct resolved paths of existing files on the chain, so the chain
+   is never longer than the file system (pigeonhole) and the fuel S (length fs) of merge_includes is never
+   used up by the recursion: any larger fuel gives the same result, on every include graph.  No hypothesis. *)
+Theorem C06_fuel_irrelevant : forall fs com parent count n, (S (length fs) <= n)%nat ->
+  merge_includes_rec n fs com [] parent count = merge_includes_rec (S (length fs)) fs com [] parent count.
+Proof. exact include_fuel_irrelevant. Qed.
+Print Assumptions C06_fuel_irrelevant.
+Example C06_fuel_irrelevant_nonvacuous :
+  (S (length C06_fs) <= 1000)%nat /\
+  exists s c, merge_includes_rec (S (length C06_fs)) C06_fs true [] (pr_sd C06_pr0) (pr_count C06_pr0) = Ok (s, c).
+Proof. split; [vm_compute; repeat constructor | do 2 eexists; vm_compute; reflexivity]. Qed.
+
+(* The parser of a native unit has a fuel of its own (the model's E_Fuel is never a Python outcome); the
+   hypothesis excludes that a unit of fs exhausts THAT fuel, which is a property of the parser and not of the
+   include graph (C01/C02 territory).  It is needed: a Raise of parse_unit is passed on unchanged. *)
+Theorem C06_include_recursion_terminates : forall fs com parent count,
+  (forall p u path c, fs_lookup p fs = Some u -> parse_unit com path c u <> Raise E_Fuel) ->
+  merge_includes fs com parent count <> Raise E_Fuel.
+Proof. exact include_recursion_terminates. Qed.
+Print Assumptions C06_include_recursion_terminates.
+
+Theorem C06_read_terminates : forall fs root inc com c,
+  (forall p u path c, fs_lookup p fs = Some u -> parse_unit com path c u <> Raise E_Fuel) ->
+  read_plain fs root inc com c <> Raise E_Fuel.
+Proof. exact read_terminates. Qed.
+Print Assumptions C06_read_terminates.
+(* (hypothesis of this and the previous theorem: C06_include_recursion_terminates_nonvacuous below) *)
+
+(* a boolean sufficient condition for the hypothesis: JSON units arrive parsed *)
+Theorem C06_json_units_never_out_of_fuel : forall fs com,
+  forallb (fun pu => match snd pu with FJson _ => true | FNative _ => false end) fs = true ->
+  forall p u path c, fs_lookup p fs = Some u -> parse_unit com path c u <> Raise E_Fuel.
+Proof. exact all_json_parse_ok. Qed.
+Print Assumptions C06_json_units_never_out_of_fuel.
+Example C06_include_recursion_terminates_nonvacuous :
+  forallb (fun pu => match snd pu with FJson _ => true | FNative _ => false end) C06_fs = true /\
+  merge_includes C06_fs true (pr_sd C06_pr0) (pr_count C06_pr0) <> Raise E_Fuel /\
+  read_plain C06_fs C06_root true true (-1)%Z <> Raise E_Fuel.
+Proof.
+  assert (H : forallb (fun pu => match snd pu with FJson _ => true | FNative _ => false end) C06_fs = true)
+    by (vm_compute; reflexivity).
+  split; [exact H|]. split.
+  - apply C06_include_recursion_terminates. apply C06_json_units_never_out_of_fuel. exact H.
+  - apply C06_read_terminates. apply C06_json_units_never_out_of_fuel. exact H.
+Qed.
+
+(* ---- 2. PRECEDENCE: the including file wins ----------------------------------------------------------- *)
+(* ordinary_key k: k is not a placeholder key (INCLUDE / COMMENT entries name themselves and are filled or
+   deleted as doublettes by design).  ordinary_leaf v: v has no dollar sign and names no EXPRESSION
+   placeholder, i.e. it is not the self-reference placeholder "$k" of the informal statement, which the
+   include does fill (C06_self_reference_is_filled below).  Unique keys of the parsed dict need no
+   hypothesis: IncludeProofs.parse_unit_nodup proves them for every unit. *)
+Theorem C06_including_file_wins : forall fs root com c u pr s c' k v,
+  fs_lookup (norm_path root) fs = Some u -> parse_unit com root c u = Ok pr ->
+  read_plain fs root true com c = Ok (s, c') ->
+  ordinary_key k = true -> ordinary_leaf v = true ->
+  alookup k (sd_data (pr_sd pr)) = Some (Leaf v) ->
+  alookup k (sd_data s) = Some (Leaf v).
+Proof. exact including_file_wins. Qed.
+Print Assumptions C06_including_file_wins.
+Example C06_including_file_wins_nonvacuous :
+  exists u pr s c',
+    fs_lookup (norm_path C06_root) C06_fs = Some u /\ parse_unit true C06_root (-1)%Z u = Ok pr /\
+    read_plain C06_fs C06_root true true (-1)%Z = Ok (s, c') /\
+    ordinary_key (KS (C06_s "k")) = true /\ ordinary_leaf (SInt 1) = true /\
+    alookup (KS (C06_s "k")) (sd_data (pr_sd pr)) = Some (Leaf (SInt 1)) /\
+    (* although b.json, c.json and d.json all define k *)
+    alookup (KS (C06_s "k")) (sd_data (pr_sd (C06_parse (C06_s "/b.json") 1%Z))) = Some (Leaf (SInt 2)).
+Proof. do 4 eexists. C06_check. Qed.
+
+(* the same at every level of the recursion (any chain, any fuel): the parent of a sub-run wins over
+   everything that sub-run merges in; unique keys are a boolean hypothesis here because [parent] is arbitrary *)
+Theorem C06_including_file_wins_rec : forall f fs com chain parent count s c' k v,
+  merge_includes_rec f fs com chain parent count = Ok (s, c') ->
+  keys_nodup (map fst (sd_data parent)) = true ->
+  ordinary_key k = true -> ordinary_leaf v = true ->
+  alookup k (sd_data parent) = Some (Leaf v) ->
+  alookup k (sd_data s) = Some (Leaf v).
+Proof. exact including_file_wins_rec. Qed.
+Print Assumptions C06_including_file_wins_rec.
+Example C06_including_file_wins_rec_nonvacuous :
+  (* b.json as the parent of the sub-run below the root: its k = 2 beats d.json's k = 4 *)
+  let parent := pr_sd (C06_parse (C06_s "/b.json") 1%Z) in
+  exists s c',
+    merge_includes_rec 5 C06_fs true [C06_s "/b.json"] parent 2%Z = Ok (s, c') /\
+    keys_nodup (map fst (sd_data parent)) = true /\
+    ordinary_key (KS (C06_s "k")) = true /\ ordinary_leaf (SInt 2) = true /\
+    alookup (KS (C06_s "k")) (sd_data parent) = Some (Leaf (SInt 2)).
+Proof. do 2 eexists. C06_check. Qed.
+
+(* why ordinary_leaf is there: an entry that refers to its own key is the placeholder the include fills *)
+Example C06_self_reference_is_filled :
+  let fs := [ (C06_s "/a.json", FJson [C06_inc "#include" "b.json"; (KS (C06_s "x"), Leaf (SStr (C06_s "$x")))]);
+              (C06_s "/b.json", FJson [C06_kv "x" 5]) ] in
+  ordinary_key (KS (C06_s "x")) = true /\ ordinary_leaf (SStr (C06_s "$x")) = false /\
+  match read_plain fs (C06_s "/a.json") true true (-1)%Z with
+  | Ok (s, _) => alookup (KS (C06_s "x")) (sd_data s) = Some (Leaf (SInt 5))
+  | Raise _ => False
+  end.
+Proof. C06_check. Qed.
+
+(* ---- 3. COMPLETENESS ------------------------------------------------------------------------------- *)
+(* Direct includes.  The root's chain is empty, so no entry is cut there; the entry only has to name an
+   existing file.  The counter value c1 at which the file is parsed is the one the run has reached (it only
+   numbers placeholders, but a parse result is a function of it), hence existential.  ordinary_key: a
+   placeholder key of an included file can be deleted as a doublette (C06_placeholder_key_can_vanish). *)
+Theorem C06_direct_include_complete : forall fs root com c s c' u0 pr0 i d n path u,
+  read_plain fs root true com c = Ok (s, c') ->
+  fs_lookup (norm_path root) fs = Some u0 -> parse_unit com root c u0 = Ok pr0 ->
+  In (i, (d, n, path)) (sd_inc (pr_sd pr0)) -> fs_lookup (norm_path path) fs = Some u ->
+  exists c1 pr, parse_unit com path c1 u = Ok pr /\
+    forall k, ordinary_key k = true -> alookup k (sd_data (pr_sd pr)) <> None -> alookup k (sd_data s) <> None.
+Proof. exact direct_include_complete. Qed.
+Print Assumptions C06_direct_include_complete.
+Example C06_direct_include_complete_nonvacuous :
+  exists s c' u0 pr0 i d n u,
+    read_plain C06_fs C06_root true true (-1)%Z = Ok (s, c') /\
+    fs_lookup (norm_path C06_root) C06_fs = Some u0 /\ parse_unit true C06_root (-1)%Z u0 = Ok pr0 /\
+    In (i, (d, n, C06_s "/c.json")) (sd_inc (pr_sd pr0)) /\
+    fs_lookup (norm_path (C06_s "/c.json")) C06_fs = Some u.
+Proof.
+  do 8 eexists. split; [vm_compute; reflexivity|]. split; [vm_compute; reflexivity|].
+  split; [vm_compute; reflexivity|]. split; [vm_compute; right; left; reflexivity | vm_compute; reflexivity].
+Qed.
+
+(* the same at any level, with the next level exposed (two-level case and the induction step of the general
+   case): an include entry whose file exists and is not on the chain is parsed, its keys arrive, and if it
+   has includes of its own its sub-run succeeded and everything that sub-run produced arrives *)
+Theorem C06_include_complete_rec : forall f fs com chain parent count s c' i d n path u,
+  merge_includes_rec (S f) fs com chain parent count = Ok (s, c') ->
+  keys_nodup (map fst (sd_data parent)) = true ->
+  In (i, (d, n, path)) (sd_inc parent) ->
+  in_chain (norm_path path) chain = false -> fs_lookup (norm_path path) fs = Some u ->
+  exists c1 pr, parse_unit com path c1 u = Ok pr /\
+    (forall k, ordinary_key k = true -> alookup k (sd_data (pr_sd pr)) <> None -> alookup k (sd_data s) <> None) /\
+    (sd_inc (pr_sd pr) <> [] ->
+     exists s1 c2, merge_includes_rec f fs com (chain ++ [norm_path path]) (pr_sd pr) (pr_count pr) = Ok (s1, c2) /\
+       forall k, ordinary_key k = true -> alookup k (sd_data s1) <> None -> alookup k (sd_data s) <> None).
+Proof. exact rec_direct_include_complete. Qed.
+Print Assumptions C06_include_complete_rec.
+Example C06_include_complete_rec_nonvacuous :
+  exists s c' i d n u,
+    merge_includes_rec (S (length C06_fs)) C06_fs true [] (pr_sd C06_pr0) (pr_count C06_pr0) = Ok (s, c') /\
+    keys_nodup (map fst (sd_data (pr_sd C06_pr0))) = true /\
+    In (i, (d, n, C06_s "/b.json")) (sd_inc (pr_sd C06_pr0)) /\
+    in_chain (norm_path (C06_s "/b.json")) [] = false /\
+    fs_lookup (norm_path (C06_s "/b.json")) C06_fs = Some u.
+Proof.
+  do 6 eexists. split; [vm_compute; reflexivity|]. split; [vm_compute; reflexivity|].
+  split; [vm_compute; left; reflexivity|]. split; [vm_compute; reflexivity|]. vm_compute; reflexivity.
+Qed.
+
+(* Transitive.  IncludeProofs.run_reach fs com f chain parent count f' chain' path pr  is the inductive
+   reachability relation: [path] is reached from [parent] through include entries each of which names an
+   existing file that is not on the chain at that point (chain' = chain followed by the resolved paths walked,
+   so no file repeats on it), and [pr] is what the file parses to at the counter value the run has there
+   (IncludeProofs.direct_include fixes that value as the one the model's own loop leaves after the earlier
+   entries).  Every ordinary key of every file so reached is a key of the result. *)
+Theorem C06_reachable_file_complete : forall fs root com c s c' u0 pr0 f' chain' path pr k,
+  read_plain fs root true com c = Ok (s, c') ->
+  fs_lookup (norm_path root) fs = Some u0 -> parse_unit com root c u0 = Ok pr0 ->
+  run_reach fs com (S (length fs)) [] (pr_sd pr0) (pr_count pr0) f' chain' path pr ->
+  ordinary_key k = true -> alookup k (sd_data (pr_sd pr)) <> None ->
+  alookup k (sd_data s) <> None.
+Proof. exact reachable_file_complete. Qed.
+Print Assumptions C06_reachable_file_complete.
+
+(* ... and the relation is not thin: it holds of every include entry of the root that names an existing file,
+   and it is closed under every include entry of a reached file that names an existing file not on the chain
+   there.  Nothing (cycle, shared file, missing file, other includes) suppresses such an entry. *)
+Theorem C06_root_includes_reached : forall fs root com c s c' u0 pr0 i d n path u,
+  read_plain fs root true com c = Ok (s, c') ->
+  fs_lookup (norm_path root) fs = Some u0 -> parse_unit com root c u0 = Ok pr0 ->
+  In (i, (d, n, path)) (sd_inc (pr_sd pr0)) -> fs_lookup (norm_path path) fs = Some u ->
+  exists pr, run_reach fs com (S (length fs)) [] (pr_sd pr0) (pr_count pr0) (length fs) [norm_path path] path pr.
+Proof. exact root_includes_reached. Qed.
+Print Assumptions C06_root_includes_reached.
+
+Theorem C06_reachable_files_closed : forall fs root com c s c' u0 pr0 f' chain' path pr i d n path' u',
+  read_plain fs root true com c = Ok (s, c') ->
+  fs_lookup (norm_path root) fs = Some u0 -> parse_unit com root c u0 = Ok pr0 ->
+  run_reach fs com (S (length fs)) [] (pr_sd pr0) (pr_count pr0) f' chain' path pr ->
+  In (i, (d, n, path')) (sd_inc (pr_sd pr)) ->
+  in_chain (norm_path path') chain' = false -> fs_lookup (norm_path path') fs = Some u' ->
+  exists f'' pr',
+    run_reach fs com (S (length fs)) [] (pr_sd pr0) (pr_count pr0) f'' (chain' ++ [norm_path path']) path' pr'.
+Proof. exact reachable_files_closed. Qed.
+Print Assumptions C06_reachable_files_closed.
+Example C06_root_includes_reached_nonvacuous :
+  exists s c' u0 i d n u,
+    read_plain C06_fs C06_root true true (-1)%Z = Ok (s, c') /\
+    fs_lookup (norm_path C06_root) C06_fs = Some u0 /\ parse_unit true C06_root (-1)%Z u0 = Ok C06_pr0 /\
+    In (i, (d, n, C06_s "/b.json")) (sd_inc (pr_sd C06_pr0)) /\
+    fs_lookup (norm_path (C06_s "/b.json")) C06_fs = Some u.
+Proof.
+  do 7 eexists. split; [vm_compute; reflexivity|]. split; [vm_compute; reflexivity|].
+  split; [vm_compute; reflexivity|]. split; [vm_compute; left; reflexivity | vm_compute; reflexivity].
+Qed.
+(* c.json is reached directly; its entry for sub/b.json names an existing file that is not on the chain [c] *)
+Example C06_reachable_files_closed_nonvacuous :
+  exists s c' u0 f' chain' pr i d n u',
+    read_plain C06_fs C06_root true true (-1)%Z = Ok (s, c') /\
+    fs_lookup (norm_path C06_root) C06_fs = Some u0 /\ parse_unit true C06_root (-1)%Z u0 = Ok C06_pr0 /\
+    run_reach C06_fs true (S (length C06_fs)) [] (pr_sd C06_pr0) (pr_count C06_pr0) f' chain' (C06_s "/c.json") pr /\
+    In (i, (d, n, C06_s "/sub/b.json")) (sd_inc (pr_sd pr)) /\
+    in_chain (norm_path (C06_s "/sub/b.json")) chain' = false /\
+    fs_lookup (norm_path (C06_s "/sub/b.json")) C06_fs = Some u'.
+Proof.
+  do 10 eexists. split; [vm_compute; reflexivity|]. split; [vm_compute; reflexivity|].
+  split; [vm_compute; reflexivity|]. split; [apply RR_direct; C06_direct 1%nat|].
+  split; [vm_compute; right; right; left; reflexivity|]. split; [vm_compute; reflexivity | vm_compute; reflexivity].
+Qed.
+
+(* /sub/b.json is reached through c.json, the second include of the root (so the loop has processed b.json and
+   everything below it before: the witness of direct_include carries that state); its own entry b.json
+   resolves to /sub/b.json, which is on the chain there and cut *)
+Example C06_reachable_file_complete_nonvacuous :
+  exists s c' u0 f' chain' pr,
+    read_plain C06_fs C06_root true true (-1)%Z = Ok (s, c') /\
+    fs_lookup (norm_path C06_root) C06_fs = Some u0 /\ parse_unit true C06_root (-1)%Z u0 = Ok C06_pr0 /\
+    run_reach C06_fs true (S (length C06_fs)) [] (pr_sd C06_pr0) (pr_count C06_pr0) f' chain' (C06_s "/sub/b.json") pr /\
+    chain' = [C06_s "/c.json"; C06_s "/sub/b.json"] /\
+    ordinary_key (KS (C06_s "e")) = true /\ alookup (KS (C06_s "e")) (sd_data (pr_sd pr)) <> None /\
+    (* the self include of /sub/b.json is cut by the chain *)
+    in_chain (norm_path (C06_s "/sub/b.json")) chain' = true.
+Proof.
+  do 6 eexists. split; [vm_compute; reflexivity|]. split; [vm_compute; reflexivity|].
+  split; [vm_compute; reflexivity|]. split.
+  - eapply RR_trans; [C06_direct 1%nat|]. apply RR_direct. C06_direct 2%nat.
+  - C06_check.
+Qed.
+
+Example C06_reachable_shared_and_cycle :
+  (* d.json is reached through b.json; its include of a.json closes the cycle a -> b -> d -> a.  The root is
+     not on its own chain (merge_includes starts with the empty chain), so a.json is parsed once more as an
+     include and only then cut: a second copy of the root's keys is merged in, which changes nothing *)
+  exists f' chain' pr f'' chain'' pr',
+    run_reach C06_fs true (S (length C06_fs)) [] (pr_sd C06_pr0) (pr_count C06_pr0) f' chain' (C06_s "/d.json") pr /\
+    chain' = [C06_s "/b.json"; C06_s "/d.json"] /\
+    run_reach C06_fs true (S (length C06_fs)) [] (pr_sd C06_pr0) (pr_count C06_pr0) f'' chain'' (C06_s "/a.json") pr' /\
+    chain'' = [C06_s "/b.json"; C06_s "/d.json"; C06_s "/a.json"] /\
+    (* the include entries of that second copy of a.json (b.json, c.json): b.json is on the chain and cut *)
+    in_chain (C06_s "/b.json") chain'' = true.
+Proof.
+  do 6 eexists. split.
+  - eapply RR_trans; [C06_direct 0%nat|]. apply RR_direct. C06_direct 0%nat.
+  - split; [vm_compute; reflexivity|]. split.
+    + eapply RR_trans; [C06_direct 0%nat|]. eapply RR_trans; [C06_direct 0%nat|]. apply RR_direct. C06_direct 0%nat.
+    + C06_check.
+Qed.
+
+(* why ordinary_key is there: c.json and b.json both include d.json; the placeholder entry of c.json's
+   directive carries the same (directive, name, path) as b.json's, and the clean-up after the merge
+   (sd_clean / clean_kind with inc_eqb) deletes it as a doublette.  The key is in the parsed file, not in
+   the result. *)
+Example C06_placeholder_key_can_vanish :
+  let fs := [ (C06_s "/a.json", FJson [C06_inc "#include" "b.json"; C06_inc "#include 2" "c.json"]);
+              (C06_s "/b.json", FJson [C06_inc "#include" "d.json"; C06_kv "b" 1]);
+              (C06_s "/c.json", FJson [C06_inc "#include" "d.json"; C06_kv "c" 1]);
+              (C06_s "/d.json", FJson [C06_kv "d" 1]) ] in
+  let k := KS (C06_s "INCLUDE000003") in
+  (* c.json is parsed with the counter at 2 in this run *)
+  match parse_unit true (C06_s "/c.json") 2%Z (FJson [C06_inc "#include" "d.json"; C06_kv "c" 1]) with
+  | Ok pr => alookup k (sd_data (pr_sd pr)) <> None
+  | Raise _ => False
+  end /\
+  ordinary_key k = false /\
+  match read_plain fs (C06_s "/a.json") true true (-1)%Z with
+  | Ok (s, _) => alookup k (sd_data s) = None /\ alookup (KS (C06_s "c")) (sd_data s) = Some (Leaf (SInt 1))
+  | Raise _ => False
+  end.
+Proof. C06_check. Qed.
+
+(* ---- 4. INCLUDE ORDER: an earlier include wins over every later one ---------------------------------- *)
+(* [pre] are the entries before the one in question, [temp] / [c1] what the model's loop has built from them
+   (inc_step is the loop body of merge_includes_rec, IncludeProofs.merge_includes_rec_S).  The including file
+   must not define k (else it wins, theorem 2) and no earlier include may have brought k (else that one wins,
+   this theorem); the entries after it ([suf]) are arbitrary: whatever they define for k is ignored. *)
+Theorem C06_earlier_include_wins : forall fs root com c s c' u0 pr0 pre i d n path suf temp c1 u pr k v,
+  read_plain fs root true com c = Ok (s, c') ->
+  fs_lookup (norm_path root) fs = Some u0 -> parse_unit com root c u0 = Ok pr0 ->
+  sd_inc (pr_sd pr0) = pre ++ (i, (d, n, path)) :: suf ->
+  fold_left (inc_step (merge_includes_rec (length fs) fs com) fs com []) pre (Ok (sd_empty, pr_count pr0)) = Ok (temp, c1) ->
+  fs_lookup (norm_path path) fs = Some u -> parse_unit com path c1 u = Ok pr ->
+  ordinary_key k = true -> ordinary_leaf v = true ->
+  alookup k (sd_data (pr_sd pr0)) = None -> alookup k (sd_data temp) = None ->
+  alookup k (sd_data (pr_sd pr)) = Some (Leaf v) ->
+  alookup k (sd_data s) = Some (Leaf v).
+Proof. exact earlier_include_wins. Qed.
+Print Assumptions C06_earlier_include_wins.
+(* In C06_fs the cycle a -> b -> d -> a re-reads the root inside the first include (the root is not on its
+   own chain), so there the first include already brings every key.  A second file system, without a cycle
+   through the root:  a includes b, c, d;  c includes b (shared) and d;  d includes c (cycle c <-> d). *)
+Definition C06_fs2 : fsys :=
+  [ (C06_s "/a.json", FJson [C06_inc "#include" "b.json"; C06_inc "#include 2" "c.json"; C06_inc "#include 3" "d.json";
+                             C06_kv "a" 1]);
+    (C06_s "/b.json", FJson [C06_kv "b" 1]);
+    (C06_s "/c.json", FJson [C06_kv "c" 2; C06_kv "b" 3; C06_inc "#include" "b.json"; C06_inc "#include 2" "d.json"]);
+    (C06_s "/d.json", FJson [C06_kv "c" 4; C06_kv "d" 5; C06_inc "#include" "c.json"]) ].
+Example C06_earlier_include_wins_nonvacuous :
+  (* c.json is the second include and defines c = 2; b.json (before it) has no c; d.json (after it) has c = 4 *)
+  exists s c' u0 pr0 pre i d n suf temp c1 u pr,
+    read_plain C06_fs2 C06_root true true (-1)%Z = Ok (s, c') /\
+    fs_lookup (norm_path C06_root) C06_fs2 = Some u0 /\ parse_unit true C06_root (-1)%Z u0 = Ok pr0 /\
+    pre = firstn 1 (sd_inc (pr_sd pr0)) /\
+    sd_inc (pr_sd pr0) = pre ++ (i, (d, n, C06_s "/c.json")) :: suf /\
+    fold_left (inc_step (merge_includes_rec (length C06_fs2) C06_fs2 true) C06_fs2 true []) pre
+              (Ok (sd_empty, pr_count pr0)) = Ok (temp, c1) /\
+    fs_lookup (norm_path (C06_s "/c.json")) C06_fs2 = Some u /\ parse_unit true (C06_s "/c.json") c1 u = Ok pr /\
+    ordinary_key (KS (C06_s "c")) = true /\ ordinary_leaf (SInt 2) = true /\
+    alookup (KS (C06_s "c")) (sd_data (pr_sd pr0)) = None /\ alookup (KS (C06_s "c")) (sd_data temp) = None /\
+    alookup (KS (C06_s "c")) (sd_data (pr_sd pr)) = Some (Leaf (SInt 2)) /\
+    alookup (KS (C06_s "c")) (sd_data (pr_sd (C06_parse_in C06_fs2 (C06_s "/d.json") 1%Z))) = Some (Leaf (SInt 4)) /\
+    alookup (KS (C06_s "c")) (sd_data s) = Some (Leaf (SInt 2)).
+Proof. do 13 eexists. C06_check. Qed.
+
+(* the first include of the root: nothing is earlier, the counter is the one the root's parse left *)
+Theorem C06_first_include_wins : forall fs root com c s c' u0 pr0 i d n path suf u pr k v,
+  read_plain fs root true com c = Ok (s, c') ->
+  fs_lookup (norm_path root) fs = Some u0 -> parse_unit com root c u0 = Ok pr0 ->
+  sd_inc (pr_sd pr0) = (i, (d, n, path)) :: suf ->
+  fs_lookup (norm_path path) fs = Some u -> parse_unit com path (pr_count pr0) u = Ok pr ->
+  ordinary_key k = true -> ordinary_leaf v = true ->
+  alookup k (sd_data (pr_sd pr0)) = None ->
+  alookup k (sd_data (pr_sd pr)) = Some (Leaf v) ->
+  alookup k (sd_data s) = Some (Leaf v).
+Proof. exact first_include_wins. Qed.
+Print Assumptions C06_first_include_wins.
+Example C06_first_include_wins_nonvacuous :
+  (* b: 20 in b.json (first include), 30 in c.json and 60 in /sub/b.json (later); the root has no b *)
+  exists s c' u0 i d n suf u pr,
+    read_plain C06_fs C06_root true true (-1)%Z = Ok (s, c') /\
+    fs_lookup (norm_path C06_root) C06_fs = Some u0 /\ parse_unit true C06_root (-1)%Z u0 = Ok C06_pr0 /\
+    sd_inc (pr_sd C06_pr0) = (i, (d, n, C06_s "/b.json")) :: suf /\
+    fs_lookup (norm_path (C06_s "/b.json")) C06_fs = Some u /\
+    parse_unit true (C06_s "/b.json") (pr_count C06_pr0) u = Ok pr /\
+    ordinary_key (KS (C06_s "b")) = true /\ ordinary_leaf (SInt 20) = true /\
+    alookup (KS (C06_s "b")) (sd_data (pr_sd C06_pr0)) = None /\
+    alookup (KS (C06_s "b")) (sd_data (pr_sd pr)) = Some (Leaf (SInt 20)) /\
+    C06_value "b" = Some (Leaf (SInt 20)).
+Proof. do 9 eexists. C06_check. Qed.
+
